@@ -1,2 +1,109 @@
-(* C02 placeholder *)
-From MsiModel Require Import Base.
+(* C02 -- Independently encoded MSI databases are read exactly.
+   Reader-side theorems, each quantified over every well-formed value of the format (not over the output of the
+   library's writer): the pool reader inverts ANY well-formed pool -- two- and three-byte references, unused entries,
+   duplicate strings, over-counted references, strings above 64 KiB (long-string escape); the table reader inverts any
+   column-major stream of well-typed rows in ANY row order with either reference width; every 16-bit type word with
+   integer field sizes 1/2/4; the catalog reader rebuilds any accepted column list from _Columns/_Validation rows;
+   the property-set reader any well-formed set; readers are total.  Composition for a whole foreign file (catalog rows
+   in any order, _Validation absent, layouts of the property set other than the writer's) is covered by the
+   correspondence with the independent encoder tools/msienc.py -- labelled partial.
+   Statements only; every proof is `exact <lemma>` from theories/. *)
+From Coq Require Import Sorting.Sorted Permutation.
+From MsiModel Require Import Base Sexp Value Expr Category CategoryProofs Column ColumnProofs CodePage Pool Table Container StreamName Propset Summary Query Package PoolProofs TableProofs CatalogProofs PropsetCodecProofs SelectTotal.
+From MsiGen Require Import GenConsts GenCatalog GenColumn.
+Open Scope N_scope.
+
+(* any well-formed UTF-8 pool (holes, duplicates, over-counts, long strings, either width) is read exactly *)
+Theorem C02_pool_reader :
+  forall p : pool,
+         pool_wf p ->
+         p_cp p = cp_utf8 ->
+         exists pb db : bytes,
+           write_pool p = Some pb /\ write_data p = Some db /\ read_pool pb db = Ok (pool_mark_unmodified p).
+Proof. exact pool_roundtrip. Qed.
+
+Theorem C02_pool_total :
+  forall pb db : bytes, read_pool pb db <> Panic.
+Proof. exact read_pool_total. Qed.
+
+(* every cell: offset-binary integers, zero = null, 2/3-byte references *)
+Theorem C02_cell_reader :
+  forall (prof : profile) (t : coltype) (long : bool) (v : vref) (bs : bytes) (rest : list N),
+         cell_ok t long v ->
+         write_cell prof t long v = Ok bs -> read_cell t long (bs ++ rest) = Ok (v, rest) /\ nlen bs = ct_width t long.
+Proof. exact cell_roundtrip. Qed.
+
+(* whatever the bytes, a cell that is read is well-typed for its column *)
+Theorem C02_cells_in_range :
+  forall (ty : coltype) (long : bool) (b : bytes) (v : vref) (r : bytes),
+         small b -> read_cell ty long b = Ok (v, r) -> small r /\ ref_ok v.
+Proof. exact read_cell_ok. Qed.
+
+(* any list of well-typed rows, in any order, column-major *)
+Theorem C02_table_reader :
+  forall (prof : profile) (t : table) (rows : list (list vref)),
+         t_cols t <> [] ->
+         Forall (row_ok t) rows ->
+         nlen rows <= MAX_ROWS_READ ->
+         exists bs : bytes,
+           write_rows prof t rows = Ok bs /\ nlen bs = nlen rows * row_size t /\ read_rows t bs = Ok rows.
+Proof. exact rows_roundtrip. Qed.
+
+Theorem C02_table_total :
+  forall (t : table) (b : bytes), read_rows t b <> Panic.
+Proof. exact read_rows_total. Qed.
+
+(* column type words *)
+Theorem C02_type_words :
+  forall c : column,
+         storable_type (c_type c) = true ->
+         exists c' : column,
+           col_with_bits c (col_bits c) = Ok c' /\
+           c_type c' = c_type c /\
+           c_loc c' = c_loc c /\
+           c_null c' = c_null c /\
+           c_pk c' = c_pk c /\
+           c_name c' = c_name c /\
+           c_range c' = c_range c /\
+           c_fk c' = c_fk c /\ c_cat c' = c_cat c /\ c_enum c' = c_enum c /\ (-32768 < col_bits c <= 32767)%Z.
+Proof. exact col_bits_roundtrip. Qed.
+
+(* integer field sizes 1 and 2 are 16-bit, 4 is 32-bit (FROM_BITFIELD_INT_SIZES) *)
+Theorem C02_int_sizes :
+  COL_FIELD_SIZE_MASK = 255 /\
+         COL_LOCALIZABLE_BIT = 512 /\
+         COL_STRING_BIT = 2048 /\
+         COL_NULLABLE_BIT = 4096 /\
+         COL_PRIMARY_KEY_BIT = 8192 /\
+         COL_VALID_BIT = 256 /\
+         COL_NONBINARY_BIT = 1024 /\
+         COLTYPE_INT16_BITS = 2 /\ COLTYPE_INT32_BITS = 4 /\ FROM_BITFIELD_INT_SIZES = [(4, 32); (2, 16); (1, 16)].
+Proof. exact column_constants_pinned. Qed.
+
+(* _Columns + _Validation rows -> column list *)
+Theorem C02_catalog_reader :
+  forall (tn : list N) (cols : list column) (long : bool),
+         tn <> [] ->
+         cols <> [] ->
+         Forall col_storable cols ->
+         NoDup (map c_name cols) ->
+         cmap <- read_columns_rows [tn] (stored (columns_rows tn cols)) [];;
+         vals <- read_validation_rows (stored (validation_rows tn cols)) [];; build_tables [tn] cmap vals long [] =
+         Ok [(tn, {| t_name := tn; t_cols := cols; t_long := long |})].
+Proof. exact catalog_roundtrip. Qed.
+
+(* any well-formed property set *)
+Theorem C02_propset_reader :
+  forall ps : propset, ps_ok ps -> exists b : bytes, ps_write ps = Some b /\ ps_read b = Ok ps.
+Proof. exact ps_roundtrip. Qed.
+
+Print Assumptions C02_pool_reader.
+Print Assumptions C02_pool_total.
+Print Assumptions C02_cell_reader.
+Print Assumptions C02_cells_in_range.
+Print Assumptions C02_table_reader.
+Print Assumptions C02_table_total.
+Print Assumptions C02_type_words.
+Print Assumptions C02_int_sizes.
+Print Assumptions C02_catalog_reader.
+Print Assumptions C02_propset_reader.
